@@ -67,7 +67,11 @@ def run(chk):
                 log = []
                 plugins = [testplugins.recording_plugin(log)] if userplugin else []
                 # flags through the real FlagParser: basic_auth option + plugins option
-                conv = scen.Conversation(args=['--basic-auth', cred.decode('utf-8', 'surrogateescape')] if cred.isascii() else [],
+                # every third conversation with 24-byte sends: the 407 leaves in several writes (seed C08d: the must-flush flag dropped
+                # after the first, partial, flush keeps the unauthenticated connection open and later data reaches the later plugins)
+                small = k % 3 == 0
+                conv = scen.Conversation(args=(['--basic-auth', cred.decode('utf-8', 'surrogateescape')] if cred.isascii() else []) +
+                                         (['--max-sendbuf-size', '24'] if small else []),
                                          flag_opts=({'plugins': plugins} if cred.isascii() else
                                                     {'plugins': plugins, 'basic_auth': cred}), threaded=(k % 4 == 1))
                 name = names[k % 4]
@@ -92,7 +96,7 @@ def run(chk):
                 cases.append({'id': cid, 'cred': list(cred), 'req': list(raw), 'cgot': list(t['clients'][0]['got']),
                               'ceof': t['clients'][0]['eof'], 'nconnect': len(t['connects']), 'ugot': list(ugot),
                               'hooks': len([h for h in log if h[1] in REQUEST_HOOKS]), 'userplugin': userplugin})
-                descs[cid] = {'mode': 'threaded' if k % 4 == 1 else 'threadless', 'situation': sname, 'method': mname, 'header_name': name.decode(), 'segments': style, 'user_plugin': userplugin,
+                descs[cid] = {'mode': 'threaded' if k % 4 == 1 else 'threadless', 'situation': sname, 'method': mname, 'header_name': name.decode(), 'segments': style, 'user_plugin': userplugin, 'sends': '24-byte' if small else 'whole',
                               'credentials': cred.decode('latin1'), 'loop_alive': t['alive']}
     results, rej = tlc.run_sharded('TraceAuth', 'TraceAuth.cfg', cases, shards=16, timeout=1200)
     m = tlc.Merged(results)
@@ -116,6 +120,7 @@ def run(chk):
     for c in cases[:2] + cases[len(cases) // 2:len(cases) // 2 + 1]:
         chk.sample({'case': descs[c['id']], 'request': bytes(c['req']).decode('latin1'), 'client_got': bytes(c['cgot']).decode('latin1')[:120],
                     'connects': c['nconnect']})
+    chk.cov['conversations_with_24_byte_sends'] = len([d for d in descs.values() if d['sends'] == '24-byte'])
     chk.assume('conflicting duplicate Proxy-Authorization lines (one valid, one not) and tab separators are left unconstrained',
                'flags are built by the real FlagParser so the plugin load order (auth plugin first) is the real one')
 
